@@ -72,3 +72,18 @@ Example C02_two_targets :
   forall o, documents (fst (run o init ops)) =
     [VMap [("a", VMap [("x", VInt 1); ("y", VInt 2)])]; VMap [("a", VMap [("x", VInt 1); ("y", VInt 2)])]].
 Proof. intro o. reflexivity. Qed.
+
+(* Document.AllParents recurses over Parents with no bound in the real code; the model's walk has fuel. On the heaps the
+   property's histories build - every parent link points to an older document ([ordered]; creating a document whose
+   parents exist keeps it) - the fuel is never what ends the walk: the parents a patch is applied to are the same for
+   every larger fuel. (Linking documents in a cycle is library misuse outside the quantifier: the real code would then
+   recurse without end.) *)
+Theorem C02_parents_fuel_irrelevant : forall h, ordered h -> forall b f f' ps,
+  (forall p, In p ps -> p < b) -> b <= f -> b <= f' -> all_parent_ids f h ps = all_parent_ids f' h ps.
+Proof. exact all_parent_ids_fuel_irrelevant. Qed.
+Print Assumptions C02_parents_fuel_irrelevant.
+
+Theorem C02_ordered_new : forall h id ps data, ordered h -> (forall p, In p ps -> p < List.length h) ->
+  ordered (h ++ [{| d_id := id; d_parents := ps; d_data := data |}]).
+Proof. exact ordered_new. Qed.
+Print Assumptions C02_ordered_new.
